@@ -860,3 +860,104 @@ func intrOnceDo(c *icall) {
 		c.fr.PC++
 	}
 }
+
+// ---- sync.Map (model: one engine map kept in the struct's `dirty` field; every method is one
+// atomic transition on the Map object and synchronises like an atomic read-modify-write) ----
+
+const syncMapDirtyField = 2 // sync.Map{mu, read, dirty, misses}
+
+func syncMapOp(c *icall, write bool) (Ptr, *MapObj) {
+	p := c.args[0].(Ptr)
+	nilRecv(c, p)
+	c.e.visible(c.st, c.g, Op{Kind: opAtomic, Obj: keyOf(p), Ptr: p, Write: write, Pos: c.curPos()})
+	if c.st.race != nil {
+		if write {
+			c.st.race.onRelease(c.g, keyOf(p))
+		}
+		c.st.race.onAcquire(c.g, keyOf(p))
+	}
+	fp := p.Field(syncMapDirtyField)
+	mr, _ := c.st.load(fp).(MapRef)
+	if mr.Obj.IsNil() {
+		if !write {
+			return fp, nil
+		}
+		id := c.st.alloc(c.g, &MapObj{})
+		mr = MapRef{Obj: id}
+		c.st.store(fp, mr)
+	}
+	return fp, c.st.mapObj(mr)
+}
+
+func syncMapSet(c *icall, fp Ptr, m *MapObj, i int, k, v Value, del bool) {
+	nm := &MapObj{Entries: make([]mapEntry, 0, len(m.Entries)+1)}
+	for j, en := range m.Entries {
+		if j == i {
+			if !del {
+				nm.Entries = append(nm.Entries, mapEntry{K: en.K, V: v})
+			}
+			continue
+		}
+		nm.Entries = append(nm.Entries, en)
+	}
+	if i < 0 && !del {
+		nm.Entries = append(nm.Entries, mapEntry{K: k, V: v})
+	}
+	c.st.setObj(c.st.load(fp).(MapRef).Obj, nm)
+}
+
+func (c *icall) anyZero() Value {
+	return c.e.zero(c.fn.Signature.Results().At(0).Type())
+}
+
+func intrSyncMapLoad(c *icall) {
+	_, m := syncMapOp(c, false)
+	i := c.e.findKey(c.w, c.st, c.g, c.fr, m, c.args[1])
+	if i < 0 {
+		c.ret(Tuple{c.anyZero(), FalseT})
+		return
+	}
+	c.ret(Tuple{m.Entries[i].V, TrueT})
+}
+
+func intrSyncMapStore(c *icall) {
+	fp, m := syncMapOp(c, true)
+	i := c.e.findKey(c.w, c.st, c.g, c.fr, m, c.args[1])
+	syncMapSet(c, fp, m, i, c.args[1], c.args[2], false)
+	c.ret(nil)
+}
+
+func intrSyncMapLoadOrStore(c *icall) {
+	fp, m := syncMapOp(c, true)
+	i := c.e.findKey(c.w, c.st, c.g, c.fr, m, c.args[1])
+	if i >= 0 {
+		c.ret(Tuple{m.Entries[i].V, TrueT})
+		return
+	}
+	syncMapSet(c, fp, m, -1, c.args[1], c.args[2], false)
+	c.ret(Tuple{c.args[2], FalseT})
+}
+
+func intrSyncMapLoadAndDelete(c *icall) {
+	fp, m := syncMapOp(c, true)
+	i := c.e.findKey(c.w, c.st, c.g, c.fr, m, c.args[1])
+	if i < 0 {
+		c.ret(Tuple{c.anyZero(), FalseT})
+		return
+	}
+	v := m.Entries[i].V
+	syncMapSet(c, fp, m, i, nil, nil, true)
+	c.ret(Tuple{v, TrueT})
+}
+
+func intrSyncMapDelete(c *icall) {
+	fp, m := syncMapOp(c, true)
+	if i := c.e.findKey(c.w, c.st, c.g, c.fr, m, c.args[1]); i >= 0 {
+		syncMapSet(c, fp, m, i, nil, nil, true)
+	}
+	c.ret(nil)
+}
+
+func intrSyncMapUnsupported(c *icall) {
+	unsupported(c.curPos(), "sync.Map method %s (not modelled)", c.fn.Name())
+}
